@@ -116,7 +116,7 @@ func (s *c13State) audit(minAge int64, final bool) {
 }
 
 func c13(run *ev.Run) int {
-	run.SetRule("workload = G goroutines x K calls each with pairwise-distinct ids over ONE handler set and ONE set of shared clients (3 protocols x 2 codecs x {identity, gzip both ways} x HTTP/1.1 + HTTP/2), kind/size/outcome drawn per call, plus bidi streams with a sender and a receiver goroutine; phases with GOMAXPROCS 16/4/1, random yields at the duplex call's hook points; monitors: Go race detector (reports with a connect-go frame), per-call echo ; also protocol-violating Connect request streams amid the trafficoracle with the call id in payload/header/trailer/error text, retained values (messages, header maps, error text+metadata) re-hashed after later calls, buffer-pool poison + double-release tables for buffers and pooled (de)compressors (GOMAXPROCS=4 phase only: the table's mutex would hide races); distinct by (client config, kind, size class, outcome, phase); history: a third of the bidi calls call Receive again after the end")
+	run.SetRule("workload = G goroutines x K calls each with pairwise-distinct ids over ONE handler set and ONE set of shared clients (3 protocols x 2 codecs x {identity, gzip both ways} x HTTP/1.1 + HTTP/2), kind/size/outcome drawn per call, plus bidi streams with a sender and a receiver goroutine; phases with GOMAXPROCS 16/4/1, random yields at the duplex call's hook points; monitors: Go race detector (reports with a connect-go frame), per-call echo ; also protocol-violating Connect request streams amid the trafficoracle with the call id in payload/header/trailer/error text, retained values (messages, header maps, error text+metadata) re-hashed after later calls, buffer-pool poison + double-release tables for buffers and pooled (de)compressors (GOMAXPROCS=4 phase only: the table's mutex would hide races); distinct by (client config, kind, size class, outcome, phase); history: a third of the bidi calls call Receive again after the end; handlers returning one shared package-level *connect.Error (with metadata) plus per-call trailers, sequentially and from 8 goroutines: no foreign trailer values, the shared error value is never written")
 	if !RaceEnabled {
 		run.Assume("WARNING: built without -race; only the behavioural monitors ran")
 	}
